@@ -44,6 +44,11 @@ claimed = {
          "All glyph sets of 1..2 (quick) / 1..3 glyphs: the first glyph from the full alphabet {empty; simple with 0..2 contours, 1..3 points, coordinates at the 8/16-bit boundaries, long / short / repeat-packed flags, instructions, 0/1/3 padding bytes; composite with 1..3 components, byte/word arguments, all four transform sizes, absent / empty / 2-byte instructions}, further glyphs from a reduced alphabet, short and long loca. Decode -> Encode -> Decode must be the identity (glyph bytes preserved bit for bit, second Encode identical), loca non-decreasing / even / inside glyf / spanning it, SimpleGlyph.Decode equal to an independent specification decoder, Components/FixComponents exact and non-aliasing. Scaled sets around the 64 KiB and 128 KiB boundaries and 65535 glyphs.",
          "Coordinates and sizes from the stated boundary sets; x/image's rasteriser view of outlines is covered in C03.",
          "DESIGN.md 4/C11"),
+ "C06": ("model_checking",
+         "bounded exhaustive enumeration of lookup lists x ALL glyph sequences up to a length bound, compared with an independent token-list reference shaper",
+         "Simple part: every simple GSUB (11) and GPOS (6) lookup of the menu x 11 flag combinations x 4 GDEF variants x optional second lookup in both orders, on all sequences of length <= 4 (quick) / 5 over {A,B,M,N,L}. Nested part: lookup lists [context parent in all six formats, two children (simple or contextual), grandchild, optional second top-level lookup] - all lists within deviation bound 3 (quick) / 4 of a deliberately rich default across 11 dimensions - on all sequences of length <= 5 / 6 over {A,B,M,L}; GSUB and GPOS flavours. Glyph ids, text, offsets and advances must equal the reference, which reproduces all 43 pinned cases of testcases sections 1-3 at start-up; cases outside the defined region are counted, not compared.",
+         "The reference model (refshape) is the trusted base; its undefined-region rules are listed in the evidence assumptions; GSUB inputs carry zero advances.",
+         "DESIGN.md 4/C06"),
 }
 checks = []
 na = []
